@@ -43,4 +43,12 @@ CONFIG = {
             "file-system trees live in per-case temporary directories inside the driver's work directory; backslashes in paths are not generated (only converted on Windows)",
         ],
     },
+    "C15": {
+        "quick": {"checks": 8000, "shards": 4, "timeout": 600},
+        "thorough": {"checks": 400000, "shards": 14, "timeout": 3000, "shrinktime": "60s"},
+        "assumptions": [
+            "backslashes are not generated (converted only on Windows); Set.Parse-style empty names are not generated",
+            "paths seen by Loader/Cache must be the independently computed canonical name (or the referrer's) plus a configured extension; for Cache.Get/Put the bare canonical name is accepted too (which key a cache entry is stored under is C16's business)",
+        ],
+    },
 }
